@@ -4,8 +4,14 @@
 // group/name filters into -t/-st/-xt/-xst where the syntax allows).  PlatformSpecificSrand/Rand are either scripted from the
 // scenario or wrapped around the platform's functions; either way every call is recorded.  A recording TestOutput gives the
 // callback word, the counters when testsEnded is printed, and the list order when a repetition starts.
+// A scenario is a SESSION: the first run and any number of further runs (`:r` items) on the SAME registry and the same shells,
+// each with its own route, filters, flags, seed, rand script and repeat count; a run may be a listing run (-lg / -ln / -ll, or
+// listTestGroupNames / listTestGroupAndCaseNames / listTestLocations through the API).  Nothing is reset on the registry between
+// the runs (the runner objects and the API filter lists stay alive until the session ends, so a filter list that a later run
+// fails to replace is still valid memory and shows as a wrong selection, not as a use-after-free).
 // Scenario:    ri rev shuffle seed repeat route real  nT (group name ignored)*  nG (pat strict invert)*  nN (pat strict invert)*  nR rand*
-// Observation: (:rep nOrd id* nS seed* nR rand* nW event* tests run ignored filtered)*  :tot nT count*
+//              (:r ri rev shuffle seed repeat route real list  nG (pat strict invert)*  nN (pat strict invert)*  nR rand*)*
+// Observation: (:run (:rep nOrd id* nS seed* nR rand* nW event* tests run ignored filtered)*)*  :tot nT count*
 #include "hlib.h"
 #include <map>
 #include <unistd.h>
@@ -24,6 +30,10 @@ using namespace hl;
 
 struct TestDef { int id; std::string group, name; bool ignored; unsigned long long executions; };
 struct FilterDef { std::string pat; bool strict, invert; };
+struct RunDef {
+    bool ri, rev, shuffle; unsigned long long seed, repeat; int route; bool real; int list;
+    std::vector<FilterDef> gf, nf; std::vector<unsigned long long> script;
+};
 struct Rep {
     std::vector<int> order; std::vector<unsigned long long> seeds, rands;
     std::string word; size_t nword; std::string counters; bool ended;
@@ -143,25 +153,85 @@ static bool pairable(const FilterDef& g, const FilterDef& n)
     return g.strict == n.strict && g.invert == n.invert && !n.pat.empty() && g.pat.find('.') == std::string::npos && n.pat.find('.') == std::string::npos;
 }
 
+static void readFilters(Toks& t, std::vector<FilterDef>& fl)
+{
+    fl.resize((size_t)t.n());
+    for (size_t k = 0; k < fl.size(); k++) { t.bytes(fl[k].pat); fl[k].strict = t.u() != 0; fl[k].invert = t.u() != 0; }
+}
+static void readScript(Toks& t, std::vector<unsigned long long>& s)
+{
+    int nr = t.n(); s.clear(); for (int k = 0; k < nr; k++) s.push_back(t.u());
+}
+
+// one run of the session on the registry as the earlier runs left it
+static void oneRun(TestRegistry& reg, const RunDef& d, std::vector<TestFilter*>& owned, std::vector<Runner*>& runners)
+{
+    gScript = d.script; gScriptPos = 0;
+    if (d.real) { PlatformSpecificSrand = wrappedSrand; PlatformSpecificRand = wrappedRand; }
+    else { PlatformSpecificSrand = scriptedSrand; PlatformSpecificRand = scriptedRand; }
+    if (d.route == 0) {
+        reg.setGroupFilters(buildFilters(d.gf, owned));
+        reg.setNameFilters(buildFilters(d.nf, owned));
+        if (d.ri) reg.setRunIgnored();
+        RecordingOutput out(false);
+        if (d.list != 0) {
+            TestResult tr(out);
+            if (d.list == 1) reg.listTestGroupNames(tr); else if (d.list == 2) reg.listTestGroupAndCaseNames(tr); else reg.listTestLocations(tr);
+            return;
+        }
+        if (d.rev) { reg.reverseTests(); checkList(); }
+        for (unsigned long long r = 0; r < d.repeat; r++) {
+            if (d.shuffle) reg.shuffleTests((size_t)d.seed);
+            beginRep();
+            TestResult tr(out);
+            reg.runAllTests(tr);
+        }
+    } else {
+        std::vector<std::string> args; args.push_back("prog"); args.push_back("-e");
+        if (d.ri) args.push_back("-ri");
+        if (d.rev) args.push_back("-b");
+        if (d.list != 0) args.push_back(d.list == 1 ? "-lg" : d.list == 2 ? "-ln" : "-ll");
+        const std::vector<FilterDef>& gf = d.gf; const std::vector<FilterDef>& nf = d.nf;
+        std::vector<bool> gUsed(gf.size(), false), nUsed(nf.size(), false);
+        if (d.route == 2)
+            for (size_t k = 0; k < gf.size() && k < nf.size(); k++)
+                if (pairable(gf[k], nf[k])) {
+                    args.push_back(flagOf(gf[k], "-t", "-st", "-xt", "-xst")); args.push_back(gf[k].pat + "." + nf[k].pat);
+                    gUsed[k] = nUsed[k] = true;
+                }
+        for (size_t k = gf.size(); k-- > 0;) if (!gUsed[k]) { args.push_back(flagOf(gf[k], "-g", "-sg", "-xg", "-xsg")); args.push_back(gf[k].pat); }
+        for (size_t k = nf.size(); k-- > 0;) if (!nUsed[k]) { args.push_back(flagOf(nf[k], "-n", "-sn", "-xn", "-xsn")); args.push_back(nf[k].pat); }
+        char b[40];
+        if (d.shuffle) { snprintf(b, sizeof b, "-s%llu", d.seed); args.push_back(b); }
+        snprintf(b, sizeof b, "-r%llu", d.repeat); args.push_back(b);
+        std::vector<const char*> av; for (size_t k = 0; k < args.size(); k++) av.push_back(args[k].c_str());
+        Runner* runner = new Runner((int)av.size(), av.data(), &reg);
+        runners.push_back(runner);          // kept until the session ends: its filter objects stay valid memory
+        try { runner->runAllTestsMain(); } catch (BrokenList&) { reg.resetPlugins(); throw; }
+        UtestShell::setRethrowExceptions(false);
+    }
+}
+
 int main()
 {
     setvbuf(stdout, NULL, _IONBF, 0);
     Toks t; Out o;
     gRealSrand = PlatformSpecificSrand; gRealRand = PlatformSpecificRand;
     while (readline(t)) {
-        bool ri = t.u() != 0, rev = t.u() != 0, shuffle = t.u() != 0; unsigned long long seed = t.u(), repeat = t.u(); int route = t.n(); bool real = t.u() != 0;
+        std::vector<RunDef> runs(1);
+        { RunDef& d = runs[0]; d.ri = t.u() != 0; d.rev = t.u() != 0; d.shuffle = t.u() != 0; d.seed = t.u(); d.repeat = t.u(); d.route = t.n(); d.real = t.u() != 0; d.list = 0; }
         int nt = t.n();
         std::vector<TestDef> defs(nt);
         for (int i = 0; i < nt; i++) { defs[i].id = i; t.bytes(defs[i].group); t.bytes(defs[i].name); defs[i].ignored = t.u() != 0; defs[i].executions = 0; }
-        std::vector<FilterDef> gf(t.n());
-        for (size_t k = 0; k < gf.size(); k++) { t.bytes(gf[k].pat); gf[k].strict = t.u() != 0; gf[k].invert = t.u() != 0; }
-        std::vector<FilterDef> nf(t.n());
-        for (size_t k = 0; k < nf.size(); k++) { t.bytes(nf[k].pat); nf[k].strict = t.u() != 0; nf[k].invert = t.u() != 0; }
-        int nr = t.n(); gScript.clear(); for (int k = 0; k < nr; k++) gScript.push_back(t.u());
+        readFilters(t, runs[0].gf); readFilters(t, runs[0].nf); readScript(t, runs[0].script);
+        while (!t.end() && t.peek() == ":r") {
+            t.next();
+            RunDef d; d.ri = t.u() != 0; d.rev = t.u() != 0; d.shuffle = t.u() != 0; d.seed = t.u(); d.repeat = t.u(); d.route = t.n(); d.real = t.u() != 0; d.list = t.n();
+            readFilters(t, d.gf); readFilters(t, d.nf); readScript(t, d.script);
+            runs.push_back(d);
+        }
 
         gDefOf.clear(); gReps.clear(); gCur = Rep(); gOpen = false; gSeedLog.clear(); gRandLog.clear(); gScriptPos = 0;
-        if (real) { PlatformSpecificSrand = wrappedSrand; PlatformSpecificRand = wrappedRand; }
-        else { PlatformSpecificSrand = scriptedSrand; PlatformSpecificRand = scriptedRand; }
 
         TestRegistry reg; gReg = &reg; gCount = (size_t)nt;
         std::vector<UtestShell*> shells(nt);
@@ -171,55 +241,33 @@ int main()
         }
         for (int i = 0; i < nt; i++) reg.addTest(shells[i]);      // registration order = id order
 
-        std::vector<TestFilter*> owned;
+        std::vector<TestFilter*> owned; std::vector<Runner*> runners;
+        std::vector<std::vector<Rep> > perRun;
         try {
-            if (route == 0) {
-                reg.setGroupFilters(buildFilters(gf, owned));
-                reg.setNameFilters(buildFilters(nf, owned));
-                if (ri) reg.setRunIgnored();
-                RecordingOutput out(false);
-                if (rev) { reg.reverseTests(); checkList(); }
-                for (unsigned long long r = 0; r < repeat; r++) {
-                    if (shuffle) reg.shuffleTests((size_t)seed);
-                    beginRep();
-                    TestResult tr(out);
-                    reg.runAllTests(tr);
-                }
-                reg.setGroupFilters(NULLPTR); reg.setNameFilters(NULLPTR);
-            } else {
-                std::vector<std::string> args; args.push_back("prog"); args.push_back("-e");
-                if (ri) args.push_back("-ri");
-                if (rev) args.push_back("-b");
-                std::vector<bool> gUsed(gf.size(), false), nUsed(nf.size(), false);
-                if (route == 2)
-                    for (size_t k = 0; k < gf.size() && k < nf.size(); k++)
-                        if (pairable(gf[k], nf[k])) {
-                            args.push_back(flagOf(gf[k], "-t", "-st", "-xt", "-xst")); args.push_back(gf[k].pat + "." + nf[k].pat);
-                            gUsed[k] = nUsed[k] = true;
-                        }
-                for (size_t k = gf.size(); k-- > 0;) if (!gUsed[k]) { args.push_back(flagOf(gf[k], "-g", "-sg", "-xg", "-xsg")); args.push_back(gf[k].pat); }
-                for (size_t k = nf.size(); k-- > 0;) if (!nUsed[k]) { args.push_back(flagOf(nf[k], "-n", "-sn", "-xn", "-xsn")); args.push_back(nf[k].pat); }
-                char b[40];
-                if (shuffle) { snprintf(b, sizeof b, "-s%llu", seed); args.push_back(b); }
-                snprintf(b, sizeof b, "-r%llu", repeat); args.push_back(b);
-                std::vector<const char*> av; for (size_t k = 0; k < args.size(); k++) av.push_back(args[k].c_str());
-                Runner* runner = new Runner((int)av.size(), av.data(), &reg);
-                try { runner->runAllTestsMain(); } catch (BrokenList&) { reg.resetPlugins(); reg.setGroupFilters(NULLPTR); reg.setNameFilters(NULLPTR); delete runner; throw; }
-                delete runner;
-                reg.setGroupFilters(NULLPTR); reg.setNameFilters(NULLPTR);
-                UtestShell::setRethrowExceptions(false);
+            for (size_t k = 0; k < runs.size(); k++) {
+                perRun.push_back(std::vector<Rep>());
+                try { oneRun(reg, runs[k], owned, runners); }
+                catch (BrokenList&) { if (gOpen) { gReps.push_back(gCur); gOpen = false; } perRun.back().swap(gReps); throw; }
+                if (gOpen) { gReps.push_back(gCur); gOpen = false; }      // a repetition that never printed testsEnded
+                perRun.back().swap(gReps); gReps.clear();
+                gSeedLog.clear(); gRandLog.clear();                        // srand / rand calls outside a repetition belong to no run
             }
         } catch (BrokenList&) {}
-        if (gOpen) gReps.push_back(gCur);      // a repetition that never printed testsEnded
+        reg.setGroupFilters(NULLPTR); reg.setNameFilters(NULLPTR);
+        for (size_t k = 0; k < runners.size(); k++) delete runners[k];
+        UtestShell::setRethrowExceptions(false);
         PlatformSpecificSrand = gRealSrand; PlatformSpecificRand = gRealRand;
 
-        for (size_t r = 0; r < gReps.size(); r++) {
-            const Rep& p = gReps[r];
-            o << ":rep" << hx(p.order.size()); for (size_t k = 0; k < p.order.size(); k++) o << hx((unsigned long long)p.order[k]);
-            o << hx(p.seeds.size()); for (size_t k = 0; k < p.seeds.size(); k++) o << hx(p.seeds[k]);
-            o << hx(p.rands.size()); for (size_t k = 0; k < p.rands.size(); k++) o << hx(p.rands[k]);
-            o << hx(p.nword); if (p.nword) o << p.word;
-            o << p.counters;
+        for (size_t u = 0; u < perRun.size(); u++) {
+            o << ":run";
+            for (size_t r = 0; r < perRun[u].size(); r++) {
+                const Rep& p = perRun[u][r];
+                o << ":rep" << hx(p.order.size()); for (size_t k = 0; k < p.order.size(); k++) o << hx((unsigned long long)p.order[k]);
+                o << hx(p.seeds.size()); for (size_t k = 0; k < p.seeds.size(); k++) o << hx(p.seeds[k]);
+                o << hx(p.rands.size()); for (size_t k = 0; k < p.rands.size(); k++) o << hx(p.rands[k]);
+                o << hx(p.nword); if (p.nword) o << p.word;
+                o << p.counters;
+            }
         }
         o << ":tot" << hx((unsigned long long)nt); for (int i = 0; i < nt; i++) o << hx(defs[i].executions);
         o.flush();
